@@ -341,6 +341,46 @@ theorem tree_parser_same (e : BEnv) (Γ Γ' : Ctx) (cfg cfg' : ParserConfig) (va
 
 example : var0.isWildcard = true ∧ var0.nillable = false := by decide
 
+/-! ### 4b. nested generic elements resolve prefixes in their own scope -/
+
+/-- **wild_child_own_scope.** `WildcardNode.child` hands the nested node the prefix map of the
+*child* element: the attribute values of a nested generic element are expanded
+(`parse_any_attributes`) with the declarations in scope of that element itself (`n'`), not with
+those of the element above it (`n`) — at every depth, since the children are built by the same
+recursion (`anyOfList`). -/
+theorem wild_child_own_scope (e : BEnv) (Γ : Ctx) (cfg : ParserConfig) (var : XmlVar) (hw : var.isWildcard = true)
+    (q : QN) (a : List (QN × Str)) (n : NsMap) (t tl : Option Str)
+    (q' : QN) (a' : List (QN × Str)) (n' : NsMap) (t' tl' : Option Str) (c' : List Tree) :
+    wildValue e Γ cfg var (.node q a n t [.node q' a' n' t' c' tl'] tl)
+      = .ok (.any (some q) (anyText e.py var.nillable true t) (normalizeContent e.py tl) (parseAnyAttributes a n)
+          [.any (some q') (anyText e.py var.nillable (!c'.isEmpty) t') (normalizeContent e.py tl')
+            (parseAnyAttributes a' n') (anyOfList e.py var.nillable c')]) := by
+  rw [wildValue_eq e Γ cfg var hw]
+  simp [anyOf, anyOfList]
+
+/-- the document of the seeded regression: `p` is bound to `urn:p1` on the captured element and
+re-bound to `urn:p2` two levels down, where `xs`/`xsi` are declared for the first time -/
+def nsOuter : NsMap := [(some (s "o"), s "urn:o"), (some (s "p"), s "urn:p1")]
+def nsC : NsMap := nsOuter ++ [(some (s "xs"), xsNs), (some (s "xsi"), xsiNs)]
+def nsD : NsMap := [(some (s "o"), s "urn:o"), (some (s "p"), s "urn:p2")]
+def scopedTree : Tree :=
+  .node (s "{urn:o}a") [(s "kind", s "p:outer")] nsOuter none
+    [.node (s "{urn:o}b") [] nsOuter none
+      [.node (s "{urn:o}c") [(xsiType, s "xs:int")] nsC (some (s "5")) [] none,
+       .node (s "{urn:o}d") [(s "ref", s "p:thing")] nsD (some (s "t")) [] none] none] none
+
+def grandAttrs : Val → List (List (QN × Str))
+  | .any _ _ _ _ [.any _ _ _ _ kids] => kids.map (fun k => match k with | .any _ _ _ a _ => a | _ => [])
+  | _ => []
+
+/-- each nested value is expanded in its own scope, by a wildcard field and by `TreeParser` alike -/
+theorem scoped_prefixes_witness :
+    (wildValue e0 Γ0 {} var0 scopedTree).map grandAttrs
+      = .ok [[(xsiType, ['{'] ++ xsNs ++ s "}int")], [(s "ref", s "{urn:p2}thing")]] ∧
+    (treeParse e0 Γ0 {} scopedTree).map grandAttrs
+      = .ok [[(xsiType, ['{'] ++ xsNs ++ s "}int")], [(s "ref", s "{urn:p2}thing")]] :=
+  ⟨by rfl, by rfl⟩
+
 /-! ### 5. xsi:type'd primitives as wildcard content (`StandardNode` / `DerivedElement`) -/
 
 /-- the object a `StandardNode` leaves for the tail of its element in mixed content -/
